@@ -350,6 +350,11 @@ impl<S: Read + Write> Client<S> {
         self.x224.shutdown()
     }
 
+    /// Number of bytes buffered by the TLS layer
+    pub fn buffered_read_size(&self) -> usize {
+        self.x224.buffered_read_size()
+    }
+
     /// This function check if the client
     /// version protocol choose is 5+
     pub fn is_rdp_version_5_plus(&self) -> bool {
